@@ -795,4 +795,27 @@ def restoresFail : St → List Op → Bool
   | _, [] => true
   | st, o :: os => (!o.isRestore || (step st o).2.isErr) && restoresFail (step st o).1 os
 
+/-! ### convergent scheme versions of key rings written by older code (`Policy.convergentVersion`)
+
+A key ring stores a convergent scheme version at policy level (`Policy.ConvergentVersion`) and, since scheme 3, per key
+version (`KeyEntry.ConvergentVersion`, 0 = absent — rings written by the scheme-2 code). `convergentVersion(ver)` is the
+per-key value when present, else the policy-level one; `SymmetricEncryptRaw` / `SymmetricDecryptRaw` support scheme 3 only
+(1 and 2 are refused as "old"). `RotateInMemory` gives every new key version scheme 3. The trace model above covers the
+rings this code base creates (scheme 3 everywhere). -/
+
+def effConvVersion (polVer keyVer : Nat) : Nat := if keyVer = 0 then polVer else keyVer
+
+def convSchemeSupported (v : Nat) : Bool := v == 3
+
+/-- `EncryptWithFactory`: the options carry `convergentVersion(ver)` -/
+def convEncAccepts (polVer keyVer : Nat) : Bool := convSchemeSupported (effConvVersion polVer keyVer)
+
+/-- `DecryptWithFactory` (after the repair F61): pre-check and options both use `convergentVersion(ver)` -/
+def convDecAccepts (polVer keyVer : Nat) : Bool := convSchemeSupported (effConvVersion polVer keyVer)
+
+/-- before the repair: the pre-check used `convergentVersion(ver)`, the options handed to `SymmetricDecryptRaw` the
+policy-level value -/
+def convDecAcceptsPolicyLevel (polVer keyVer : Nat) : Bool :=
+  convSchemeSupported (effConvVersion polVer keyVer) && convSchemeSupported polVer
+
 end Obao.Transit
